@@ -22,7 +22,7 @@ RULE = ('history = sequence of next / checkpoint (optionally pickled) / restore(
         'model = index into the uninterrupted run: after restoring checkpoint c the iterator must deliver exactly U[p_c:] (multiset '
         'with threads) and the final aggregate must equal the uninterrupted one; non-trivial = >= 2 generations of restore, or a '
         'restore on a sharded source, or threads >= 1; distinct = distinct canonical case JSON'
-        '; also: sources of 65..200 records, a later operator failing on some batches under error skipping (fail_b), failing records skipped by ignore_error, sliced aggregates, three-stage chains, re-batching operators, mapping/tuple iterables')
+        '; also: sources of 65..200 records, a later operator failing on some batches under error skipping (fail_b), failing records skipped by ignore_error, sliced aggregates, three-stage chains, re-batching operators, mapping/tuple iterables, failing reads skipped by the run instead of by the data source, merged sequences ending exactly at shard ends, a checkpoint taken at the very end and restored')
 ASSUMPTIONS = [
     'pipelines use exact aggregates (integer sum/count) so the final aggregate comparison is exact',
     'with num_threads > 0 the comparison is on multisets (delivery order is schedule dependent)',
